@@ -310,6 +310,9 @@ func run(c *core.Ctx) error {
 	}
 	c.Logf("records: %d corpora, %d query, %d open-end date query, %d sort", len(e2e.header), len(e2e.queries), len(e2e.openEnd), len(e2e.sorts))
 
+	c.Extra("queries_not_executed_walk_too_long", e2e.skipped)
+	c.Extra("queries_with_hopeless_walk", len(e2e.blowups))
+
 	// 4. TLC judges
 	par := 5
 	var jwg sync.WaitGroup
@@ -338,6 +341,56 @@ func run(c *core.Ctx) error {
 	jwg.Wait()
 	if jerr != nil {
 		return jerr
+	}
+	return checkBlowups(c, e2e)
+}
+
+// checkBlowups handles the queries whose term-range walk is hopelessly long
+// ("terminates" clause). TLC judges the real splitter output with
+// SplitEnumBounded; the real query runs in a child process with a deadline.
+// Only both together (unbounded by the judge, no answer from the real code)
+// are a violation.
+func checkBlowups(c *core.Ctx, e2e *e2eRecords) error {
+	limit := c.Pick(2, 6)
+	// canonical cases were appended last: take from the end
+	cases := e2e.blowups
+	if len(cases) > limit {
+		cases = cases[len(cases)-limit:]
+	}
+	for _, bc := range cases {
+		rec, err := splitRecord(bc.mn, bc.mx)
+		if err != nil {
+			return err
+		}
+		bad, err := c.JudgeRecords("JudgeNumeric", "JudgeNumeric_enum.cfg", []any{rec.m}, 2)
+		c.Traces(1)
+		if err != nil {
+			return err
+		}
+		res, err := queryInChild(c, bc.cs, 12*time.Second)
+		c.Eval(1)
+		if err != nil {
+			return err
+		}
+		c.Logf("query with a %s-step term walk: judge=%v answered=%v after %.1fs", bc.walk, bad, res.answered, res.waited.Seconds())
+		switch {
+		case res.answered && res.errText != "":
+			c.Violation("c07/query/"+bc.cs.Corpus.Typ+"/error", res.errText, map[string]any{"case": bc.cs})
+		case res.answered:
+			// the real code coped: judge the answer like any other query
+			r := record{m: res.record, cs: bc.cs, class: "query/" + bc.cs.Corpus.Typ}
+			if err := judgeAll(c, "JudgeNumeric.cfg", []record{bc.cs.Corpus.record()}, []record{r}, 10, 1); err != nil {
+				return err
+			}
+		case len(bad) > 0:
+			q := bc.cs.Query
+			c.Violation("c07/range-enumeration-blowup",
+				fmt.Sprintf("%s range query on %s (min bits %#x, max bits %#x, flags %d/%d; integer bounds [%d,%d]) gives no answer within 12s: termRange.Enumerate has to walk %s byte strings (judge: %v)",
+					bc.cs.Corpus.Typ, q.Eng, q.Min, q.Max, q.IncMin, q.IncMax, bc.mn, bc.mx, bc.walk, bad[0]),
+				map[string]any{"case": bc.cs, "split_record": rec.m})
+		default:
+			c.Inconclusive(fmt.Sprintf("query %v did not answer although the judge finds its term walk bounded", core.Canon(bc.cs.Query)))
+		}
 	}
 	return nil
 }
